@@ -147,6 +147,7 @@ def big_weight_cases(rep: Report, rng: Rng):
                     continue        # its weights must have the dtype of the scores; float32 weights cannot hold the values at all
                 base = rng.choice([9_000_000, 2 ** 23 + 1, 12_345_679])
                 ws = [base, base + 1, base + rng.choice([2, 4])]
+                ws[2] += (1 - sum(ws)) % 8          # the batch total is ≡ 1 (mod 8): float32 cannot hold it (spacing 2..8 here)
                 x = torch.tensor([0.25, 0.5, 0.75], dtype=xdt)
                 w = torch.tensor(ws, dtype=wdt)
                 m = ctor()
